@@ -22,7 +22,7 @@ git -C /repo worktree remove --force $vf
 cd /verif
 git -C /repo apply $wt/patch.diff || { echo "patch does not apply to /repo"; exit 1; }
 ./run.sh $id quick > /tmp/vf-$id.check.log 2>&1; rc_check=$?
-git -C /repo checkout -- .
+git -C /repo checkout HEAD -- .
 echo "check $id quick rc=$rc_check"; grep "^violation\|^VIOLATION\|^OK\|trouble\|^unconfirmed" /tmp/vf-$id.check.log | cut -c1-260 | head -8
 d=/verif/seeded/$name; mkdir -p $d
 cp $wt/patch.diff $d/patch.diff; cp $wt/$demo $d/$(basename $demo); cp $wt/NOTES.md $d/NOTES.md 2>/dev/null
@@ -32,6 +32,6 @@ viol=[l.strip() for l in open('/tmp/vf-$id.check.log') if l.startswith('violatio
 json.dump({"property":"$id","name":"$name","demo_test":"$demo","demo_without_patch_exit":$rc_without,"demo_with_patch_exit":$rc_with,"existing_suite_with_patch_exit":$rc_suite,
  "check_cmd":"./run.sh $id quick","check_exit":$rc_check,"check_violations":viol,
  "needs":"see NOTES.md (written by the sub-agent that produced the change)",
- "ran":["fresh worktree of /repo HEAD: go test -run TestSeededDemo (without patch, with patch)","go test -skip 'TestSeededDemo|Test_Handshake' ./... with patch","git -C /repo apply patch.diff; ./run.sh $id quick; git -C /repo checkout -- ."]},
+ "ran":["fresh worktree of /repo HEAD: go test -run TestSeededDemo (without patch, with patch)","go test -skip 'TestSeededDemo|Test_Handshake' ./... with patch","git -C /repo apply patch.diff; ./run.sh $id quick; git -C /repo checkout HEAD -- ."]},
  open('$d/meta.json','w'),indent=1)
 PY
